@@ -148,9 +148,10 @@ def best_match_names(sl):
     Vs = fresh_bool("Vsuffix")
     m = core.concretize(Vm.z) if core.is_sym(Vm) else Vm
     p = core.concretize(Vp.z) if core.is_sym(Vp) else Vp
-    s = "SNAPSHOT" if Vs else None
+    # a suffix may itself contain dashes (8.0.0-rc1-SNAPSHOT): everything after the first dash is the suffix
+    s = (sl.get("suffix") or "SNAPSHOT") if Vs else None
     M = sl["major"]
-    text = "%d.%d.%d" % (M, m, p) + ("-SNAPSHOT" if s else "")
+    text = "%d.%d.%d" % (M, m, p) + ("-%s" % s if s else "")
     try:
         got = versions.best_match([b[5] for b in branches], text)
     except Exception as e:  # noqa: BLE001 - unrelated branch names must not break the match
@@ -408,7 +409,7 @@ READS = [versions.best_match, versions.latest_bounded_minor, versions._latest_ma
 
 
 def _v2_slices(tier):
-    out = [{"branches": 1, "major": VM}, {"branches": 2, "major": VM, "_w": 5}]
+    out = [{"branches": 1, "major": VM}, {"branches": 2, "major": VM, "_w": 5}, {"branches": 1, "major": VM, "suffix": "rc1-SNAPSHOT"}]
     out += [{"branches": 1, "major": 3}, {"branches": 1, "major": 1}, {"branches": 2, "major": 3, "_w": 5}, {"branches": 2, "major": 1, "_w": 5}]
     if tier == "thorough":
         out += [{"branches": 3, "major": VM, "unordered": True, "_w": 9}]
